@@ -152,19 +152,34 @@ func c11KindOf(name string) (Kind, bool) {
 	return -1, false
 }
 
-// c11Cid returns the i-th concrete link payload (multibase 0x00 + CID). Three CID shapes rotate:
-// CIDv1 dag-cbor sha2-256, CIDv1 raw sha2-256, CIDv0. Digests are distinct per i.
+// c11Cid returns the i-th concrete link payload (multibase 0x00 + binary CID). Eight CID shapes
+// rotate: CIDv1 dag-cbor sha2-256; CIDv1 raw sha2-256; CIDv0; CIDv1 dag-cbor sha2-512 (64-byte
+// digest); CIDv1 raw identity multihash with a 5-byte digest; CIDv1 raw identity multihash with
+// an empty digest; CIDv1 dag-json (two-byte codec varint 0x0129) blake2b-256 (two-byte multihash
+// code varint 0xb220); CIDv1 with the one-byte codec 0x70 (dag-pb) sha2-256. Digests are
+// distinct per i.
 func c11Cid(i int) []byte {
 	var b []byte
-	switch i % 3 {
+	n := 32
+	switch i % 8 {
 	case 0:
 		b = []byte{0x00, 0x01, 0x71, 0x12, 0x20}
 	case 1:
 		b = []byte{0x00, 0x01, 0x55, 0x12, 0x20}
-	default:
+	case 2:
 		b = []byte{0x00, 0x12, 0x20}
+	case 3:
+		b, n = []byte{0x00, 0x01, 0x71, 0x13, 0x40}, 64
+	case 4:
+		b, n = []byte{0x00, 0x01, 0x55, 0x00, 0x05}, 5
+	case 5:
+		b, n = []byte{0x00, 0x01, 0x55, 0x00, 0x00}, 0
+	case 6:
+		b = []byte{0x00, 0x01, 0xa9, 0x02, 0xa0, 0xe4, 0x02, 0x20}
+	default:
+		b = []byte{0x00, 0x01, 0x70, 0x12, 0x20}
 	}
-	for j := 0; j < 32; j++ {
+	for j := 0; j < n; j++ {
 		b = append(b, byte(0x31+11*i+j))
 	}
 	return b
@@ -180,40 +195,88 @@ type c11Gen struct {
 	nBytes   int
 	kindMiss uint64 // number of kind fields whose value is not the kind number of their struct
 	topKind  *c11Val
+	ints     []*c11Int // integers in generation order; dynamic types and values are drawn by finish()
+	csum     int       // digest of the shape decisions (picks the integer pattern when it is not case-split)
+	side     int       // 0: nested structs by pattern; 1 / 2: the first / second nested struct is fully case-split
+	nNested  int
+	fixTop   bool // the top-level kind field is not arbitrary but the kind number of the struct
 }
 
-// int generates an arbitrary integer. Dynamic type as delivered by fxamacker/cbor: uint64 for a
-// CBOR unsigned integer (any value), int64 for a CBOR negative integer (value < 0).
-// intPat: 0 all unsigned, 1 all negative, 2 even positions negative, 3 odd positions negative
+type c11Int struct {
+	v      *c11Val
+	path   string
+	isKind bool
+	kind   Kind // isKind: the kind number of the enclosing struct
+}
+
+// choice is verifChoice, remembered in the shape digest.
+func (g *c11Gen) choice(name string, n int) int {
+	r := verifChoice(name, n)
+	g.csum = g.csum*7 + r + 1
+	return r
+}
+
+// int allocates an arbitrary integer; finish() draws its dynamic type and value.
+func (g *c11Gen) int(path string, isKind bool, k Kind) *c11Val {
+	v := &c11Val{kind: 'i'}
+	g.ints = append(g.ints, &c11Int{v: v, path: path, isKind: isKind, kind: k})
+	return v
+}
+
+// finish draws the integers. Dynamic type as delivered by fxamacker/cbor: uint64 for a CBOR
+// unsigned integer (any value), int64 for a CBOR negative integer (value < 0).
+// Pattern 0 all unsigned, 1 all negative, 2 even positions negative, 3 odd positions negative
 // (kind fields are unsigned in patterns 0..3); 4: kind fields negative, the rest unsigned;
 // 5 (thorough tier of the small structs): every non-kind integer is case-split on its own.
-func (g *c11Gen) int(path string, isKind bool) *c11Val {
-	neg := false
-	if isKind {
-		neg = g.intPat == 4
+// derive: the pattern is not case-split but a function of the shape decisions (quick tier).
+func (g *c11Gen) finish(npat int, derive bool) {
+	if derive {
+		if npat > 5 {
+			npat = 5
+		}
+		d := g.csum
+		if d < 0 {
+			d = -d
+		}
+		g.intPat = d % npat
 	} else {
-		n := g.nInt
-		g.nInt++
-		switch g.intPat {
-		case 1:
-			neg = true
-		case 2:
-			neg = n%2 == 0
-		case 3:
-			neg = n%2 == 1
-		case 5:
-			neg = verifChoice("neg:"+path, 2) == 1
+		g.intPat = verifChoice("intpat", npat)
+	}
+	n := 0
+	for _, it := range g.ints {
+		neg := false
+		if it.isKind {
+			neg = g.intPat == 4
+		} else {
+			switch g.intPat {
+			case 1:
+				neg = true
+			case 2:
+				neg = n%2 == 0
+			case 3:
+				neg = n%2 == 1
+			case 5:
+				neg = verifChoice("neg:"+it.path, 2) == 1
+			}
+			n++
+		}
+		if it.isKind && g.fixTop && it.v == g.topKind {
+			// byte-level obligations: the top-level kind is the right one (one concrete head byte)
+			it.v.u = uint64(it.kind)
+			continue
+		}
+		it.v.neg = neg
+		if neg {
+			i := verifI64(it.path)
+			verifAssume(i < 0)
+			it.v.u = uint64(i)
+		} else {
+			it.v.u = verifU64(it.path)
+		}
+		if it.isKind {
+			g.kindMiss += verifIteU64(it.v.u == uint64(it.kind), 0, 1)
 		}
 	}
-	v := &c11Val{kind: 'i', neg: neg}
-	if neg {
-		i := verifI64(path)
-		verifAssume(i < 0)
-		v.u = uint64(i)
-	} else {
-		v.u = verifU64(path)
-	}
-	return v
 }
 
 var c11ByteLens = []int{2, 0, 1, 3}
@@ -222,7 +285,7 @@ func (g *c11Gen) value(f c11Field, full bool, pat int, nl *int, path string) *c1
 	if f.list {
 		var n int
 		if full {
-			n = g.lens[verifChoice("len:"+path, len(g.lens))]
+			n = g.lens[g.choice("len:"+path, len(g.lens))]
 		} else {
 			n = g.lens[(pat/3+*nl)%len(g.lens)]
 			*nl++
@@ -237,8 +300,16 @@ func (g *c11Gen) value(f c11Field, full bool, pat int, nl *int, path string) *c1
 	}
 	switch {
 	case f.typ == "Int":
-		return g.int(path, false)
+		return g.int(path, false, -1)
 	case f.typ == "Link":
+		if g.nLink == 0 {
+			// the rotation of CID shapes starts at a shape-dependent position
+			d := g.csum
+			if d < 0 {
+				d = -d
+			}
+			g.nLink = 8 + d%8
+		}
 		v := &c11Val{kind: 'l', b: c11Cid(g.nLink)}
 		g.nLink++
 		return v
@@ -247,7 +318,9 @@ func (g *c11Gen) value(f c11Field, full bool, pat int, nl *int, path string) *c1
 		g.nBytes++
 		return &c11Val{kind: 'b', b: verifBytes(path, n)}
 	}
-	return g.strct(f.typ, false, path) // nested struct
+	// nested struct
+	g.nNested++
+	return g.strct(f.typ, g.side != 0 && g.side == g.nNested, path)
 }
 
 // strct generates a value of a struct type in tuple representation: every field present, or
@@ -268,7 +341,7 @@ func (g *c11Gen) strct(name string, full bool, path string) *c11Val {
 	}
 	pat := 0
 	if !full && decisions {
-		pat = verifChoice("pat:"+path, g.nestPat)
+		pat = g.choice("pat:"+path, g.nestPat)
 	}
 	v := &c11Val{kind: 's', typ: name, elems: make([]*c11Val, len(st.fields))}
 	// presence decisions, last field first (omission is only possible at the tail)
@@ -287,7 +360,7 @@ func (g *c11Gen) strct(name string, full bool, path string) *c11Val {
 		pick := c11Present
 		if len(opts) > 1 {
 			if full {
-				pick = opts[verifChoice("st:"+path+"."+f.name, len(opts))]
+				pick = opts[g.choice("st:"+path+"."+f.name, len(opts))]
 			} else {
 				pick = opts[(pat+no)%len(opts)]
 				no++
@@ -310,8 +383,7 @@ func (g *c11Gen) strct(name string, full bool, path string) *c11Val {
 			if !ok {
 				verifFail("C11.schema: struct with a kind field that the code has no Kind for: " + name)
 			}
-			kv := g.int(fp, true)
-			g.kindMiss += verifIteU64(kv.u == uint64(k), 0, 1)
+			kv := g.int(fp, true, k)
 			if g.topKind == nil {
 				g.topKind = kv
 			}
@@ -364,6 +436,10 @@ func c11ToAny(v *c11Val) interface{} {
 	return nil
 }
 
+// c11Canon: also under symgo every integer head is minimal (canonical DAG-CBOR), at the price of
+// a five-way case split on the magnitude of every integer (byte-level obligations of small structs).
+var c11Canon bool
+
 func c11Head(out []byte, major byte, n uint64, minimal bool) []byte {
 	m := major << 5
 	if minimal {
@@ -393,7 +469,7 @@ func c11ToCBOR(out []byte, v *c11Val, top *c11Val) []byte {
 		if v.neg {
 			major, n = 1, ^v.u
 		}
-		minimal := !verifSymbolic()
+		minimal := !verifSymbolic() || c11Canon
 		if v == top && n < 24 { // forks under symgo
 			minimal = true
 		}
